@@ -292,6 +292,11 @@ func runC10(spec *hutil.Spec, out *hutil.Out) {
 	if spec.Worker == 0 {
 		c10grpc(out)
 	}
+	if spec.Worker == 1 || spec.Workers == 1 {
+		// real guns over real sockets against scripted raw answers: the sample's protocol code is the status
+		// received, its net code is non-zero exactly when the exchange failed (see wire19_test.go)
+		runWire(spec, out)
+	}
 	for i, s := range c10shots(spec.Thorough()) {
 		if !spec.Mine(i) || (spec.Only != "" && !strings.Contains(s.Name(), spec.Only)) {
 			continue
